@@ -180,6 +180,39 @@ fn fnv64(bytes: &[u8]) -> u64 {
     h
 }
 
+/// Instruction starts of a POU body according to the operand widths of the format (independent of
+/// the validator: `modgen::instruction_starts`).
+fn debug_oracle(m: &BytecodeModule) -> String {
+    let Some(SectionData::PouIndex(ix)) = m.section(SectionId::PouIndex) else { return "dbg=1".into() };
+    let Some(SectionData::PouBodies(bodies)) = m.section(SectionId::PouBodies) else { return "dbg=1".into() };
+    let Some(SectionData::DebugMap(map)) = m.section(SectionId::DebugMap) else { return "dbg=1".into() };
+    let mut prev: Option<(u32, u32)> = None;
+    for (i, e) in map.entries.iter().enumerate() {
+        let Some(pou) = ix.entries.iter().find(|p| p.id == e.pou_id) else {
+            return format!("dbg=0:entry{i}:unknown-pou{}", e.pou_id);
+        };
+        let (start, len) = (pou.code_offset as usize, pou.code_length as usize);
+        if start + len > bodies.len() {
+            return format!("dbg=0:entry{i}:pou-out-of-bodies");
+        }
+        let off = e.code_offset as usize;
+        if off < start || off >= start + len {
+            return format!("dbg=0:entry{i}:pou{}:offset{}-outside-{}..{}", e.pou_id, off, start, start + len);
+        }
+        let starts = instruction_starts(&bodies[start..start + len]);
+        if !starts.contains(&(off - start)) {
+            return format!("dbg=0:entry{i}:pou{}:offset{}-not-an-instruction-start", e.pou_id, off);
+        }
+        if let Some((ppou, poff)) = prev {
+            if ppou == e.pou_id && e.code_offset < poff {
+                return format!("dbg=0:entry{i}:pou{}:offset{}-after-{}", e.pou_id, off, poff);
+            }
+        }
+        prev = Some((e.pou_id, e.code_offset));
+    }
+    "dbg=1".into()
+}
+
 /// compile -> module -> validate / encode / decode / re-encode, all with the real code
 fn emitted_answer(m: &BytecodeModule, bytes: &[u8]) -> String {
     let r = std::panic::catch_unwind(|| {
@@ -196,7 +229,9 @@ fn emitted_answer(m: &BytecodeModule, bytes: &[u8]) -> String {
             },
             Err(_) => (false, false, "decode-err".into()),
         };
-        format!("validates={} reenc={reenc} same={} rt={}", validates as u8, same as u8, rt as u8)
+        let dbg = debug_oracle(m);
+        let dbg = if dbg == "dbg=1" { dbg } else { format!("dbg=0 why={}", &dbg[6..]) };
+        format!("validates={} reenc={reenc} same={} rt={} {dbg}", validates as u8, same as u8, rt as u8)
     });
     r.unwrap_or_else(|_| "panic".into())
 }
@@ -559,6 +594,8 @@ struct Bases {
     /// the hand-built module of the boundary sweep and the first slot of each of its field sites
     sweep_module: BytecodeModule,
     sites: Vec<(&'static str, usize)>,
+    /// (site, position, host, with debug info) of the deterministic rollback programs
+    rollback: Vec<(usize, usize, usize, bool)>,
 }
 
 enum Compiled {
@@ -568,36 +605,102 @@ enum Compiled {
     EmitFailed(String, String),
 }
 
+/// Front end, then the bytecode encoder with (`from_runtime_with_sources`) or without
+/// (`from_runtime`) debug information.  `None`: the front end rejected the program.
+fn compile_source(source: &str, features: Vec<&'static str>, debug: bool, out: &mut Out) -> Option<Compiled> {
+    let built = std::panic::catch_unwind(|| TestHarness::from_source(source));
+    let harness = match built {
+        Ok(Ok(h)) => h,
+        Ok(Err(e)) => {
+            out.count("compile-rejected");
+            if std::env::var("C11_DEBUG").is_ok() {
+                eprintln!("compile rejected: {e}\n{source}");
+            }
+            return None;
+        }
+        Err(_) => {
+            out.count("compile-panicked");
+            return None;
+        }
+    };
+    let runtime = harness.into_runtime();
+    let emitted = std::panic::catch_unwind(std::panic::AssertUnwindSafe(|| {
+        if debug {
+            BytecodeModule::from_runtime_with_sources(&runtime, &[source])
+        } else {
+            BytecodeModule::from_runtime(&runtime)
+        }
+    }));
+    Some(match emitted {
+        Ok(Ok(m)) => Compiled::Ok(m, source.to_string(), features),
+        Ok(Err(e)) => Compiled::EmitFailed(source.to_string(), format!("err {}", format!("{e:?}").replace(' ', "_"))),
+        Err(_) => Compiled::EmitFailed(source.to_string(), "panic".into()),
+    })
+}
+
 fn compile(rng: &mut Rng, out: &mut Out) -> Option<Compiled> {
     for _ in 0..6 {
         let p = gen_st::gen_program(rng);
-        let built = std::panic::catch_unwind(|| TestHarness::from_source(&p.source));
-        let harness = match built {
-            Ok(Ok(h)) => h,
-            Ok(Err(e)) => {
-                out.count("compile-rejected");
-                if std::env::var("C11_DEBUG").is_ok() {
-                    eprintln!("compile rejected: {e}\n{}", p.source);
-                }
-                continue;
-            }
-            Err(_) => {
-                out.count("compile-panicked");
-                continue;
-            }
-        };
-        let runtime = harness.into_runtime();
-        let source = p.source.clone();
-        let emitted = std::panic::catch_unwind(std::panic::AssertUnwindSafe(|| {
-            BytecodeModule::from_runtime_with_sources(&runtime, &[source.as_str()])
-        }));
-        return Some(match emitted {
-            Ok(Ok(m)) => Compiled::Ok(m, p.source, p.features),
-            Ok(Err(e)) => Compiled::EmitFailed(p.source, format!("err {}", format!("{e:?}").replace(' ', "_"))),
-            Err(_) => Compiled::EmitFailed(p.source, "panic".into()),
-        });
+        let debug = !rng.chance(1, 4);
+        if let Some(c) = compile_source(&p.source, p.features, debug, out) {
+            return Some(c);
+        }
     }
     None
+}
+
+/// The deterministic block of encoder fallback / rollback programs (gen_st::rollback_program):
+/// level 1 (quick): every site x host at the positions `last` and `middle` with debug info, and `last`
+/// without; level 2: every site x host x position, with and without debug info.
+fn rollback_list(level: usize) -> Vec<(usize, usize, usize, bool)> {
+    let mut v = Vec::new();
+    for site in 0..gen_st::ROLLBACK_SITES.len() {
+        for host in 0..gen_st::ROLLBACK_HOSTS.len() {
+            for pos in 0..gen_st::ROLLBACK_POSITIONS.len() {
+                let name = gen_st::ROLLBACK_POSITIONS[pos];
+                if level >= 2 || name == "last" || name == "middle" {
+                    v.push((site, pos, host, true));
+                }
+                if level >= 2 || (name == "last" && host % 2 == 0) {
+                    v.push((site, pos, host, false));
+                }
+            }
+        }
+    }
+    v
+}
+
+/// One emitted-container case from a compile result.
+fn emitted_case(c: Compiled, kind: &'static str, note: String, own_runtime: bool, out: &mut Out) -> CaseSpec {
+    match c {
+        Compiled::Ok(m, source, features) => {
+            let bytes = m.encode().expect("encode emitted module");
+            let answer = emitted_answer(&m, &bytes);
+            for f in &features {
+                out.count(&format!("feature-{f}"));
+            }
+            CaseSpec {
+                kind,
+                notes: vec![note, format!("src={}", hex(source.as_bytes()))],
+                bytes,
+                runtime_source: if own_runtime { source } else { gen_st::SIMPLE_RUNTIME.to_string() },
+                resource: "none".into(),
+                emitted: Some(answer),
+                emit_failed: None,
+                built: None,
+            }
+        }
+        Compiled::EmitFailed(source, err) => CaseSpec {
+            kind: "emit-failed",
+            notes: vec![note, "the bytecode encoder rejected a program the compiler accepted".into()],
+            bytes: Vec::new(),
+            runtime_source: source,
+            resource: "none".into(),
+            emitted: None,
+            emit_failed: Some(err),
+            built: None,
+        },
+    }
 }
 
 fn gen_case(n: u64, seed: u64, bases: &Bases, out: &mut Out) -> CaseSpec {
@@ -642,6 +745,26 @@ fn gen_case(n: u64, seed: u64, bases: &Bases, out: &mut Out) -> CaseSpec {
             };
         }
     }
+    // encoder fallback / rollback programs, deterministic
+    let r = k as usize - (bases.sites.len() * SITE_VALUES).min(k as usize);
+    if (k as usize) >= bases.sites.len() * SITE_VALUES && r < bases.rollback.len() {
+        let (site, pos, host, debug) = bases.rollback[r];
+        let (name, source) = gen_st::rollback_program(site, pos, host);
+        let note = format!("rollback {name} debug={}", debug as u8);
+        return match compile_source(&source, vec!["rollback"], debug, out) {
+            Some(c) => emitted_case(c, "emitted-rollback", note, false, out),
+            None => CaseSpec {
+                kind: "emit-failed",
+                notes: vec![note, "the front end rejected a rollback program".into()],
+                bytes: Vec::new(),
+                runtime_source: source,
+                resource: "none".into(),
+                emitted: None,
+                emit_failed: Some("front-end-rejected".into()),
+                built: None,
+            },
+        };
+    }
     let mut rng = Rng::for_case(seed, n);
     let resource = match rng.below(10) {
         0 => hex(b"R"),
@@ -653,37 +776,12 @@ fn gen_case(n: u64, seed: u64, bases: &Bases, out: &mut Out) -> CaseSpec {
     let roll = rng.below(100);
     if roll < 5 {
         // compiler-emitted, unmutated, applied to the runtime built from the same source
-        match compile(&mut rng, out) {
-            Some(Compiled::Ok(m, source, features)) => {
-                let bytes = m.encode().expect("encode emitted module");
-                let answer = emitted_answer(&m, &bytes);
-                for f in &features {
-                    out.count(&format!("feature-{f}"));
-                }
-                return CaseSpec {
-                    kind: "emitted",
-                    notes: vec![format!("features: {}", features.join(","))],
-                    bytes,
-                    runtime_source: source,
-                    resource: "none".into(),
-                    emitted: Some(answer),
-                    emit_failed: None,
-                built: None,
-                };
-            }
-            Some(Compiled::EmitFailed(source, err)) => {
-                return CaseSpec {
-                    kind: "emit-failed",
-                    notes: vec!["the bytecode encoder rejected a program the compiler accepted".into()],
-                    bytes: Vec::new(),
-                    runtime_source: source,
-                    resource: "none".into(),
-                    emitted: None,
-                    emit_failed: Some(err),
-                    built: None,
-                };
-            }
-            None => {}
+        if let Some(c) = compile(&mut rng, out) {
+            let note = match &c {
+                Compiled::Ok(_, _, f) => format!("features: {}", f.join(",")),
+                Compiled::EmitFailed(..) => String::new(),
+            };
+            return emitted_case(c, "emitted", note, true, out);
         }
     }
     if roll < 14 {
@@ -762,7 +860,80 @@ fn gen_case(n: u64, seed: u64, bases: &Bases, out: &mut Out) -> CaseSpec {
     }
 }
 
+/// `vharness c11 --src file.st [--nodebug 1]`: compile one source and print what the emitted-container
+/// oracle sees (developer tool for replays).
+fn probe(path: &str, nodebug: bool) -> i32 {
+    let source = std::fs::read_to_string(path).expect("read source");
+    let harness = match TestHarness::from_source(&source) {
+        Ok(h) => h,
+        Err(e) => {
+            println!("front end rejected: {e}");
+            return 1;
+        }
+    };
+    let runtime = harness.into_runtime();
+    let module = if nodebug {
+        BytecodeModule::from_runtime(&runtime)
+    } else {
+        BytecodeModule::from_runtime_with_sources(&runtime, &[source.as_str()])
+    };
+    match module {
+        Err(e) => {
+            println!("encoder error: {e:?}");
+            1
+        }
+        Ok(m) => {
+            let bytes = m.encode().expect("encode");
+            println!("{}", emitted_answer(&m, &bytes));
+            if let (Some(SectionData::PouIndex(ix)), Some(SectionData::PouBodies(b))) =
+                (m.section(SectionId::PouIndex), m.section(SectionId::PouBodies))
+            {
+                for p in ix.entries.iter().filter(|p| p.code_length > 0) {
+                    let code = &b[p.code_offset as usize..(p.code_offset + p.code_length) as usize];
+                    println!("pou {} kind {:?} code@{}+{}: {}", p.id, p.kind, p.code_offset, p.code_length, hex(code));
+                }
+            }
+            if let Some(SectionData::DebugMap(d)) = m.section(SectionId::DebugMap) {
+                for e in &d.entries {
+                    println!("debug pou {} offset {} line {} col {}", e.pou_id, e.code_offset, e.line, e.column);
+                }
+            }
+            0
+        }
+    }
+}
+
 pub fn run(args: &Args) -> i32 {
+    if let Some(path) = args.extra.get("src") {
+        return probe(path, args.extra.contains_key("nodebug"));
+    }
+    if args.extra.contains_key("rollback-probe") {
+        // developer tool: which rollback programs does the front end accept, what does the oracle say
+        for site in 0..gen_st::ROLLBACK_SITES.len() {
+            for host in 0..gen_st::ROLLBACK_HOSTS.len() {
+                let (name, source) = gen_st::rollback_program(site, 3, host);
+                let r = match TestHarness::from_source(&source) {
+                    Err(e) => format!("FRONT-END {e}"),
+                    Ok(h) => {
+                        let rt = h.into_runtime();
+                        match BytecodeModule::from_runtime_with_sources(&rt, &[source.as_str()]) {
+                            Err(e) => format!("ENCODER {e:?}"),
+                            Ok(m) => {
+                                let bytes = m.encode().expect("encode");
+                                let nops = match m.section(SectionId::PouBodies) {
+                                    Some(SectionData::PouBodies(b)) => b.len(),
+                                    _ => 0,
+                                };
+                                format!("{} bodies={nops}", emitted_answer(&m, &bytes))
+                            }
+                        }
+                    }
+                };
+                println!("{name}: {r}");
+            }
+        }
+        return 0;
+    }
     let mut out = Out::new();
     let mut pool = Pool {
         worker: None,
@@ -781,7 +952,9 @@ pub fn run(args: &Args) -> i32 {
     };
     let sites = site_slots(&mut sweep_module);
     out.add("site-sweep-sites", sites.len() as u64);
-    let mut bases = Bases { emitted: Vec::new(), sweep_module, sites };
+    let rollback = rollback_list(args.extra_usize("rollback-level", 1));
+    out.add("rollback-programs", rollback.len() as u64);
+    let mut bases = Bases { emitted: Vec::new(), sweep_module, sites, rollback };
     let mut brng = Rng::for_case(args.seed, u64::MAX);
     for _ in 0..4 {
         if let Some(Compiled::Ok(m, source, _)) = compile(&mut brng, &mut out) {
